@@ -7,6 +7,7 @@ from ...common.error import (
     ConstraintViolatedError,
     InputStreamBytesDepletedError,
     InputStreamSuperfluousBytesError,
+    ParameterEncryptionMismatchError,
     SizeConstraintExceededError,
     ValueConstraintViolatedError,
 )
@@ -678,10 +679,16 @@ def process_response(
                 )
                 or None
             )
-            # TODO yield Warning
-            assert (
-                parameter_encryption == parameter_encryption_expected
-            ), f"Started parsing Response with parameter_encryption = {parameter_encryption}, but authorizationArea.sessionAttributes.encrypt = {parameter_encryption_expected}."
+            if parameter_encryption != parameter_encryption_expected:
+                # the parameters have been decoded already, all that is left is to report the contradiction
+                error = ParameterEncryptionMismatchError(
+                    element_path,
+                    expected=bool(parameter_encryption),
+                    found=bool(parameter_encryption_expected),
+                )
+                if abort_on_error:
+                    raise error
+                yield WarningEvent(error=error)
 
         values[field.name] = element_value
 
